@@ -10,17 +10,19 @@ RULE = ("MC: the loop of next_msg_frame as a step machine refines the declarativ
         "contains at least one 0xD3; distinct = distinct buffers")
 
 
+def sgn(x):
+    return "+" if x > 0 else ("-" if x < 0 else "=")
+
+
 def sig(ev, d):
-    if ev["ev"] == "Scan":
-        e = d.get("expected", {})
-        ef = e.get("frame", {})
-        return "Scan got=(consumed%+d, at%s) vs spec" % (
-            ev["consumed"] - e.get("consumed", 0),
-            "=" if (ev["at"] + 1 == ef.get("at", 0) or (ev["at"] < 0 and ef.get("at", 0) == 0)) else "!=")
     e = d.get("expected", {})
-    return "Iter frames=%d/%d consumed%+d after=%s" % (len(ev.get("frames", [])), len(e.get("frames", [])),
-                                                     ev.get("consumed", 0) - e.get("consumed", 0),
-                                                     [x[0] for x in ev.get("after", [])])
+    if ev["ev"] == "Scan":
+        ef = e.get("frame", {})
+        got = "frame" if ev["at"] >= 0 else "none"
+        exp = "frame" if ef.get("at", 0) > 0 else "none"
+        return "Scan got=%s expected=%s consumed%s" % (got, exp, sgn(ev["consumed"] - e.get("consumed", 0)))
+    return "Iter frames%s consumed%s after=%s" % (sgn(len(ev.get("frames", [])) - len(e.get("frames", []))),
+                                                sgn(ev.get("consumed", 0) - e.get("consumed", 0)), [x[0] for x in ev.get("after", [])])
 
 
 def run(chk):
